@@ -11,6 +11,7 @@ structure DState where
   root : String := "istio-system"
   pas  : List PA := []
   fx   : Fixes := Fixes.all
+  vers : List (List String) := []     -- versions seen in this case, in order of first appearance
 
 /-- Optional 5th token of a `case` line, `fx=<f2><f3><f10><f11><f12>` (bits): which repairs the
     ambient model applies; default all (= the code in /repo).  Only used to validate the model of
@@ -57,6 +58,17 @@ def joinOrDash (l : List String) : String :=
 
 def sortByPort {β : Type} (l : List (Nat × β)) : List (Nat × β) :=
   l.mergeSort (fun a b => decide (a.1 ≤ b.1))
+
+/-- Canonical form of a version (a multiset of UID.ResourceVersion). -/
+def canonVersion (v : List VersionKey) : List String :=
+  (v.map (fun k => s!"{k.1}/{k.2.1}.{k.2.2}")).mergeSort (fun a b => decide (a ≤ b))
+
+/-- The harness cannot show the hash; both sides print the index of the version among the distinct
+    versions seen so far in the case (equal versions <-> equal index). -/
+def versionIndex (seen : List (List String)) (v : List String) : Nat × List (List String) :=
+  match seen.findIdx? (· == v) with
+  | some i => (i, seen)
+  | none => (seen.length, seen ++ [v])
 
 def showQuery (root : String) (pas : List PA) (w : Workload) (ports : List Nat) : String :=
   let a := initAuthn root pas
@@ -123,13 +135,21 @@ def step (s : DState) (toks : List String) : DState × String :=
     ({ s with pas := s.pas ++ [p] }, "ok")
   | ["q", ns, labels, svc, ports] =>
     let w : Workload := { ns := dec ns, labels := parseLabels labels, svcNs := (decList svc).take 1 }
-    (s, showQuery s.root s.pas w (parsePortList ports))
+    let vi := versionIndex s.vers (canonVersion (initAuthn s.root s.pas).version)
+    ({ s with vers := vi.2 }, s!"{showQuery s.root s.pas w (parsePortList ports)} V={vi.1}")
+  | ["pu", idx, mtls, ports] =>
+    -- edit of a policy's spec: Kubernetes bumps the resource version
+    let i := idx.toNat?.getD 0
+    let pas := s.pas.mapIdx (fun k p => if k == i then { p with mtls := PMode.ofTok mtls, ports := parsePorts ports, rv := p.rv + 1 } else p)
+    ({ s with pas := pas }, "ok")
   | ["chk", ns, labels, port, epTLS, dr, clientNs, imported, _wp] =>
     -- the client side as production runs it: on the client proxy's filtered view
     let w : Workload := { ns := dec ns, labels := parseLabels labels }
     let view := sidecarView s.root s.pas (dec clientNs) (decList imported)
     let r := checkMtlsEnabledIn view (DRMode.ofTok dr) (tokBool epTLS) w (port.toNat?.getD 0)
-    (s, s!"{boolTok r} BE={(bestEffortServiceMode view w.ns).tok} NS={(view.namespaceMode w.ns).tok}")
+    let vi := versionIndex s.vers (canonVersion view.version)
+    ({ s with vers := vi.2 },
+     s!"{boolTok r} BE={(bestEffortServiceMode view w.ns).tok} NS={(view.namespaceMode w.ns).tok} V={vi.1}")
   | ["cv", i, j, k] =>
     -- direct call of convertPeerAuthentication on policies picked by index
     match s.pas[i.toNat?.getD 0]? with
